@@ -355,6 +355,59 @@ def setup_sites(db, rep):
             'no control/localiphost: the name substituted for local IP literals is %r (flag %s); documented: control/me = %r, so that <postmaster@[127.0.0.1]> is judged like <postmaster@me>' % (lip, ok, SetupHooks.ME), tr if not good else [])}
 
 
+def rcpthosts_init_sites(db, rep):
+    """rcpthosts_init() over the outcomes of reading control/rcpthosts (unreadable, absent, present with entries, present but
+    empty) and of opening morercpthosts.cdb: the list is in force (flagrh = 1) whenever the file exists - an empty file closes the
+    relay completely, it is not the same as no file - and the compiled list is opened whenever the file exists"""
+    from rules import libtab as _lt
+    prog = db.program('qmail-smtpd')
+    fn = db.fn('rcpthosts.c', 'rcpthosts_init')
+    bad = None
+    n = 0
+    for rf, content in ((-1, None), (0, None), (1, b'a.example\0'), (1, b'')):
+        for op in ('fd', 'noent', 'eio'):
+            opened = []
+
+            class RH(_lt.SAConc, _lt.Conc):
+                def prim_control_readfile(self_, E, x, args):
+                    if rf != 1:
+                        return [Outcome(ret=fs(rf))]
+                    o = self_._put(E, x, args, content, False)[0]
+                    return [Outcome(ret=fs(1), sets=o.sets)]
+
+                def prim_constmap_init(self_, E, x, args):
+                    return [Outcome(ret=fs(1))]
+
+                def prim_open_read(self_, E, x, args):
+                    opened.append(self_.cstring(E, _lt._one(args[0])))
+                    if op == 'fd':
+                        return [Outcome(ret=fs(9))]
+                    return [Outcome(ret=fs(-1), sets={'$errno': fs(2 if op == 'noent' else 5)})]
+            H = RH('rcpthosts_init')
+            _lt._run_conc(db, rep, prog, fn, {'G:error_noent': fs(2)}, 'rcpthosts_init', H)
+            n += 1
+            if len(H.ends) != 1:
+                raise AnalysisBroken('rcpthosts_init: %d ends' % len(H.ends))
+            end, val, tr = H.ends[0]
+            flag = _lt.one(end.get('S:rcpthosts_c:flagrh'))
+            if flag is None:
+                cands = [k for k in end if k.startswith('S:rcpthosts_c:') and 'flag' in k]
+                flag = _lt.one(end.get(cands[0])) if len(cands) == 1 else None
+            if rf != 1:
+                want = (rf, rf, [])
+            elif op == 'eio':
+                want = (-1, -1, [b'control/morercpthosts.cdb'])
+            else:
+                want = (0, 1, [b'control/morercpthosts.cdb'])
+            got = (_lt.one(val), flag, opened)
+            if got != want and bad is None:
+                bad = 'control/rcpthosts %s, morercpthosts.cdb %s: rcpthosts_init returns %s with the list %s and opens %s; documented: returns %s with the list %s%s' % (
+                    {-1: 'unreadable', 0: 'absent'}.get(rf, 'present with %d bytes of entries' % len(content or b'')), {'fd': 'opens', 'noent': 'absent', 'eio': 'unreadable'}[op],
+                    got[0], {1: 'in force', 0: 'off (every recipient accepted)', -1: 'in error'}.get(got[1], got[1]), got[2], want[0], {1: 'in force', 0: 'off', -1: 'in error'}[want[1]],
+                    ' - a file without entries still means "relay for nobody but the compiled list"' if rf == 1 and not content else '')
+    return {'rcpthosts_init:list-in-force-whenever-the-file-exists(even-empty)': (bad is None, 'rcpthosts.c:rcpthosts_init', bad or '%d (file, cdb) outcomes' % n, [])}
+
+
 def run(ctx):
     db, rep = ctx.db, ctx.report
     prog = db.program('qmail-smtpd')
@@ -623,6 +676,8 @@ def run(ctx):
                 r4.check(not bad_, 'rcpthosts(%r,flagrh=%d,%s)' % (addr_, flagrh, 'cdb' if fdm != -1 else 'no-cdb'), rh.unit + ':rcpthosts',
                          'lookups and result %s do not match the documented candidates (whole lower-cased domain and every dot suffix; list first, then cdb; hit -> 1, cdb error -> -1, else 0)' % ([(b_[0], b_[1]) for b_ in bad_[:1]],),
                          bad_[0][2] if bad_ else None)
+    for inst_, v_ in sorted(rcpthosts_init_sites(db, rep).items()):
+        r4.check(v_[0], inst_, v_[1], v_[2], v_[3])
     r4.check(ncell >= 60, 'rcpthosts-cells-explored', rh.unit + ':rcpthosts', '%d' % ncell)
     rep.exhaustive_rules.append('C08.4-rcpthosts')
     r4.check(not gate_err and n_gates > 0, 'cdb-error->die_control', 'qmail-smtpd.c:smtp_rcpt', 'smtp_rcpt() goes on after rcpthosts() reported -1 (control file unreadable): the process must end with die_control()',
